@@ -313,6 +313,27 @@ theorem expectation_is_bilinear_pairing {K R : Type} [CommRing K] [Ring R] [Alge
         + ∑ p ∈ range n, ∑ q ∈ range n, ∑ r ∈ range n, ∑ s ∈ range n, φ (ad p * ad q * a r * a s) * o2 p q r s :=
   expectation_bilinear φ hφ c o1 o2
 
+open OFV.Car in
+/-- **`map_two_pdm_to_two_hole_dm` is correct for every state** (every linear functional `φ` with `φ 1 = 1`): with
+`D_pq = φ(a†_p a_q)`, `Γ_pqrs = φ(a†_p a†_q a_r a_s)` the 2-hole-RDM entry `φ(a_s a_r a†_q a†_p)` (`tqdm[s,r,q,p]`) equals
+`Γ_pqrs − term1 − term2 − term3` with exactly the three terms of the code (compare `twoPdmToTwoHole` / `term123`) -/
+theorem two_hole_map_correct {K R : Type} [CommRing K] [Ring R] [Algebra K R] (n : Nat) (ad a : Nat → R) (hc : CAR n ad a)
+    (φ : R →ₗ[K] K) (hφ : φ 1 = 1) (p q r s : Nat) (hp : p < n) (hq : q < n) (hr : r < n) (hs : s < n) :
+    φ (a s * a r * ad q * ad p) =
+      φ (ad p * ad q * a r * a s)
+        - ((if q = r then φ (ad p * a s) else 0) + (if p = s then φ (ad q * a r) else 0))
+        + ((if p = r then φ (ad q * a s) else 0) + (if q = s then φ (ad p * a r) else 0))
+        - ((if q = s ∧ p = r then (1 : K) else 0) - (if p = s ∧ q = r then 1 else 0)) :=
+  two_hole_expectation hc φ hφ p q r s hp hq hr hs
+
+open OFV.Car in
+/-- **`map_two_pdm_to_particle_hole_dm` is correct for every state**: `φ(a†_p a_r a†_q a_s) = δ_qr D_ps − Γ_pqrs`
+(`phdm[p,r,q,s]`, compare `twoPdmToPh`) -/
+theorem particle_hole_map_correct {K R : Type} [CommRing K] [Ring R] [Algebra K R] (n : Nat) (ad a : Nat → R)
+    (hc : CAR n ad a) (φ : R →ₗ[K] K) (p q r s : Nat) (hq : q < n) (hr : r < n) :
+    φ (ad p * a r * ad q * a s) = (if q = r then φ (ad p * a s) else 0) - φ (ad p * ad q * a r * a s) :=
+  particle_hole_expectation hc φ p q r s hq hr
+
 -- non-vacuity: one fermionic mode as 2 × 2 integer matrices satisfies the CAR for n = 1
 open OFV.Car Matrix in
 example : CAR 1 (fun _ => (!![0, 0; 1, 0] : Matrix (Fin 2) (Fin 2) ℤ)) (fun _ => !![0, 1; 0, 0]) := by
